@@ -55,7 +55,7 @@ impl<H, E> SliceWithHeader<H, E> {
 
 pub struct SliceWithHeaderPtrMeta;
 
-impl<H, E, M> PtrMeta<SliceWithHeader<H, E>, M> for SliceWithHeaderPtrMeta {
+unsafe impl<H, E, M> PtrMeta<SliceWithHeader<H, E>, M> for SliceWithHeaderPtrMeta {
     type PtrMetadata = usize;
     type Thin = H;
 
@@ -269,7 +269,7 @@ impl<'gc, E: 'static + Copy> GcSlice<'gc, E> {
 
 pub struct SlicePtrMeta;
 
-impl<E, M> PtrMeta<[E], M> for SlicePtrMeta {
+unsafe impl<E, M> PtrMeta<[E], M> for SlicePtrMeta {
     type PtrMetadata = usize;
     type Thin = ();
 
@@ -366,7 +366,7 @@ impl<'gc> GcStr<'gc> {
 
 pub struct StrPtrMeta;
 
-impl<M> PtrMeta<str, M> for StrPtrMeta {
+unsafe impl<M> PtrMeta<str, M> for StrPtrMeta {
     type PtrMetadata = usize;
     type Thin = ();
 
